@@ -258,7 +258,10 @@ impl<'a> SubsetTable<'a> for &[BaseGlyph] {
             let record_num_layers = record.num_layers();
             s.embed(record_num_layers)?;
 
-            *num_layers += record_num_layers;
+            // numLayerRecords is a u16: more retained layers than that cannot be represented
+            *num_layers = num_layers
+                .checked_add(record_num_layers)
+                .ok_or_else(|| s.set_err(SerializeErrorFlags::SERIALIZE_ERROR_INT_OVERFLOW))?;
         }
         Ok(())
     }
